@@ -133,6 +133,11 @@ func evalPath(p *Path, ctx interface{}, env *Env) (interface{}, error) {
 			if err != nil {
 				return nil, err
 			}
+			if r == nil {
+				// the port treats a null member as absent in some positions and as
+				// null in others (README, 'Null handling'); the statements exclude it
+				return nil, &Unspecified{"JSON null reached by a path step"}
+			}
 			if !IsUndef(r) {
 				results = append(results, r)
 			}
